@@ -102,14 +102,26 @@ BeginFresh(s) == /\ sc' = s /\ pc' = "tmp" /\ cur' = s.start /\ rows' = [f \in O
 
 Fail(h) == /\ pc' = "done" /\ exit' = 1 /\ errH' = h
 
+\* Start-up failures (main.rs parse_args / main): an unacceptable range is refused before anything is created; a dump
+\* folder that cannot be written makes the construction of the callback fail; a missing data directory or an unreadable
+\* index is noticed only afterwards, when the callback's tmp files already exist.  sc.startup (optional field) is one of
+\* "ok", "badrange", "nodump", "nodir", "noindex".
+Startup == IF "startup" \in DOMAIN sc THEN sc.startup ELSE "ok"
+RejectArgs == /\ pc = "tmp" /\ Startup = "badrange" /\ Fail(NONE)
+              /\ UNCHANGED <<sc, scan, seen, lastAt, idx, fileMaxH, maxH, cur, open, blk, delivered, tmp, fin, rows>>
+CreateTmpFails == /\ pc = "tmp" /\ Startup = "nodump" /\ sc.cb \in FileCallbacks /\ Fail(NONE)
+                  /\ UNCHANGED <<sc, scan, seen, lastAt, idx, fileMaxH, maxH, cur, open, blk, delivered, tmp, fin, rows>>
+OpenStorageFails == /\ pc = "scan" /\ scan = 0 /\ Startup \in {"nodir", "noindex"} /\ Fail(NONE)
+                    /\ UNCHANGED <<sc, scan, seen, lastAt, idx, fileMaxH, maxH, cur, open, blk, delivered, tmp, fin, rows>>
+
 \* main.rs:206 -> Callback::new : *.csv.tmp created (truncated) before anything is read
-CreateTmp == /\ pc = "tmp"
+CreateTmp == /\ pc = "tmp" /\ Startup # "badrange" /\ ~(Startup = "nodump" /\ sc.cb \in FileCallbacks)
              /\ tmp' = [f \in OutFiles(sc.cb) |-> [disk |-> 0, buf |-> 0]]
              /\ pc' = "scan"
              /\ UNCHANGED <<sc, scan, seen, lastAt, idx, fileMaxH, maxH, cur, open, blk, delivered, fin, rows, exit, errH>>
 
 \* index.rs get_block_index: one 'b' record, in key order
-ScanRecord == /\ pc = "scan" /\ scan < Len(sc.recs)
+ScanRecord == /\ pc = "scan" /\ scan < Len(sc.recs) /\ Startup \notin {"nodir", "noindex"}
               /\ LET r == sc.recs[scan + 1] IN
                    /\ seen' = [id \in DOMAIN seen \cup {r.id} |-> IF id = r.id THEN r ELSE seen[id]]
                    /\ lastAt' = IF AsIsKeeps(r)
@@ -124,7 +136,7 @@ Selected == IF "LastInsertWins" \in AsIs
                  IN Force(BestTips(seen), mk)
 
 \* index.rs ChainIndex::new : select chain, per-file maximum, clamp by --end, trim by --start/--end
-SelectChain == /\ pc = "scan" /\ scan = Len(sc.recs)
+SelectChain == /\ pc = "scan" /\ scan = Len(sc.recs) /\ Startup \notin {"nodir", "noindex"}
                /\ \E chain \in {Selected} :      \* (bound, so that the selection is computed once)
                     IF DOMAIN chain = {} THEN /\ Fail(NONE)
                                               /\ UNCHANGED <<idx, fileMaxH, maxH>>
@@ -264,7 +276,7 @@ FlushSome == \E f \in DOMAIN tmp : FlushFile(f)
 RenameSome == \E f \in DOMAIN tmp : RenameFile(f)
 DropSome == \E f \in DOMAIN tmp : DropFlush(f)
 
-Step == \/ CreateTmp \/ ScanRecord \/ SelectChain \/ DiscoverFiles \/ OnStart \/ Lookup \/ Open \/ SeekRead
+Step == \/ RejectArgs \/ CreateTmpFails \/ OpenStorageFails \/ CreateTmp \/ ScanRecord \/ SelectChain \/ DiscoverFiles \/ OnStart \/ Lookup \/ Open \/ SeekRead
         \/ CloseIfLast \/ Verify \/ Deliver \/ ProduceSummary \/ FinishDone \/ ExitOk \/ Kill
         \/ FlushSome \/ RenameSome \/ DropSome
 
@@ -333,6 +345,11 @@ ExitZeroComplete == (Done /\ exit = 0) =>
 FailureLeavesNone == (Done /\ exit = 1) => fin = <<>>      \* (a kill may fall between two renames: those finals are complete)
 \* an unreadable block of the range is reported with its height
 ReadFaultReported == (Done /\ exit = 1 /\ errH # NONE) => errH \in ExpectedHeights
+
+\* start-up failures end the run with a non-zero status, no final-named file and - when refused early - no tmp file
+StartupFails == (Done /\ Startup # "ok" /\ exit # 137 /\ ~(Startup = "nodump" /\ sc.cb \notin FileCallbacks)) =>
+                   /\ exit = 1 /\ fin = <<>> /\ delivered = <<>>
+                   /\ (Startup \in {"badrange", "nodump"} => tmp = <<>>)
 
 \* C17 ------------------------------------------------------------------
 \* after a fetch every open file still holds a block of the selected chain above the current height
